@@ -257,7 +257,7 @@ func stringBytes(s *Stream) ([]byte, error) {
 			s.buf = append(append(append([]byte{}, s.buf[:cursor]...), runeErrBytes...), s.buf[cursor+1:]...)
 			_, _, p = s.stat()
 			cursor += runeErrBytesLen
-			s.length += runeErrBytesLen
+			s.length += runeErrBytesLen - 1 // one byte became three
 			s.offset -= runeErrBytesLen - 1 // the window grew: keep offset+cursor equal to the input position
 			continue
 		case nul:
@@ -277,7 +277,7 @@ func stringBytes(s *Stream) ([]byte, error) {
 			fallthrough
 		default:
 			// multi bytes character
-			if !utf8.FullRune(s.buf[cursor:s.length]) {
+			if cursor >= s.length || !utf8.FullRune(s.buf[cursor:s.length]) {
 				s.cursor = cursor
 				if s.read() {
 					_, cursor, p = s.stat()
@@ -289,7 +289,7 @@ func stringBytes(s *Stream) ([]byte, error) {
 			if r == utf8.RuneError {
 				s.buf = append(append(append([]byte{}, s.buf[:cursor]...), runeErrBytes...), s.buf[cursor+1:]...)
 				cursor += runeErrBytesLen
-				s.length += runeErrBytesLen
+				s.length += runeErrBytesLen - 1 // one byte became three
 				s.offset -= runeErrBytesLen - 1 // the window grew: keep offset+cursor equal to the input position
 				_, _, p = s.stat()
 			} else {
